@@ -279,3 +279,99 @@ def scoping(ctx):
     else:
         ctx.inconclusive.append("vacuity: correlate never completed")
     ctx.sample({"paths": E.paths})
+
+
+# ---------------------------------------------------------------------------------------
+# P3: USE statements in nested scopes; entities reached through a re-exporting module
+# (depends on modules being correlated in dependency order whatever scope holds the USE)
+# ---------------------------------------------------------------------------------------
+NOUSE = "implicit none"
+USE_Z = [(NOUSE, False), ("use z_facade", True), ("USE Z_FACADE, only: t", True)]
+OWN_T = [(("integer :: dummy0", "integer :: dummy1", "integer :: dummy2"), False), (("type t", "integer :: own", "end type t"), True)]
+
+
+def _nested_files(um, uo, ui, own):
+    return {
+        "y.f90": ["module y_base", "type t", "integer :: c", "end type t", "end module y_base"],
+        "z.f90": ["module z_facade", "use y_base", "end module z_facade"],
+        # named so that it is read FIRST: only the dependency order makes it correlate after z_facade
+        "a.f90": ["module a_user", um, own[0], own[1], own[2], "contains", "subroutine outer()", uo, "contains",
+                  "subroutine inner()", ui, "type(t) :: v", "end subroutine inner", "end subroutine outer", "end module a_user"],
+    }
+
+
+def nested_rule(um, uo, ui, own):
+    if um or uo or ui:
+        return ("y_base", "t") if (ui or uo or um) else None
+    return ("a_user", "t") if own else None
+
+
+def nested_rule2(um, uo, ui, own):
+    """innermost scope with a declaration of t wins: use association in inner/outer/module scope hides ... the module's own t only
+    when the USE stands in a scope nested inside the module (a module cannot both declare t and use-associate t)"""
+    if ui or uo:
+        return ("y_base", "t")
+    if um:
+        return ("y_base", "t")
+    return ("a_user", "t") if own else None
+
+
+def _nested_observe(p):
+    a = [m for m in p.modules if _choice_true(m.name, "a_user")][0]
+    inner = a.subroutines[0].subroutines[0]
+    vs = list(inner.variables)
+    return vs[0].proto[0] if len(vs) == 1 else "MISSING"
+
+
+def _choice_true(name, want):
+    r = choice.apply(lambda n: str(n).lower() == want, name)
+    return r is True
+
+
+def replay_nested(w):
+    p = parserh.project_concrete(_nested_files(*w["slots"]), **SETTINGS)
+    got = _resolved(_nested_observe(p))
+    got = list(got) if got else None
+    return got != w["expected"], {"files": _nested_files(*w["slots"]), "ford": got, "fortran_scoping": w["expected"]}
+
+
+@obligation("C07", "P3.use-in-nested-scopes", engine="SX(CV)", timeout=1800)
+def nested(ctx):
+    """`type(t)` inside an internal procedure: a USE of a re-exporting module in the internal procedure, its host procedure or the
+    module makes the re-exported type visible there, whichever file is read first"""
+    import ford.sourceform as sf
+    import ford.fortran_project as fp
+
+    ctx.encode_fn(fp.Project.correlate)
+    ctx.encode_fn(sf.FortranCodeUnit.correlate)
+    ctx.bounds.update({"use placements": "module / host procedure / internal procedure, each absent or in 2 spellings", "own type": "yes/no"})
+
+    def h(E):
+        um = CV.choice(E, "um", USE_Z)
+        uo = CV.choice(E, "uo", USE_Z)
+        ui = CV.choice(E, "ui", USE_Z)
+        own = CV.choice(E, "own", OWN_T)
+        # a module that use-associates t cannot declare its own t
+        E.assume(choice.apply(lambda a, b: not (a and b), um[1], own[1]))
+        E.e.snapshot = lambda m: {"slots": [choice.value_in_model(m, um)[0], choice.value_in_model(m, uo)[0], choice.value_in_model(m, ui)[0],
+                                            list(choice.value_in_model(m, own)[0])],
+                                  "expected": (lambda r: list(r) if r else None)(choice.value_in_model(m, h.want))}
+        h.want = choice.apply(nested_rule2, um[1], uo[1], ui[1], own[1])
+        p = parserh.project(_nested_files(um[0], uo[0], ui[0], own[0]), **SETTINGS)
+        got = _nested_observe(p)
+        E.reachable("correlated")
+        E.require(choice.apply(lambda g, w_: _resolved(g) == w_, got, h.want), "type reached through a USE in a nested scope resolved wrongly")
+
+    E = sym.Engine(ctx, max_paths=50000, incremental=True)
+    found = E.explore(h)
+    seen = set()
+    for (label, m, pc), snap in zip(found, E.snapshots):
+        if label in seen:
+            continue
+        seen.add(label)
+        ctx.report(label, snap, replay_nested)
+    if E.reached.get("correlated"):
+        ctx.twins += 1
+    else:
+        ctx.inconclusive.append("vacuity: correlate never completed")
+    ctx.sample({"paths": E.paths})
